@@ -33,6 +33,8 @@ pub struct RawTree {
     pub toks: Vec<RawTok>,
     pub missing: Option<u8>,
     pub main_exit: bool,
+    /// the main file is given through a symbolic link that sits in main/ and points elsewhere
+    pub main_symlink: bool,
 }
 
 pub fn raw_tree() -> impl Strategy<Value = RawTree> {
@@ -42,7 +44,7 @@ pub fn raw_tree() -> impl Strategy<Value = RawTree> {
         2 => Just(RawTok::Close),
         1 => Just(RawTok::Exit),
     ];
-    (proptest::collection::vec(tok, 3..40), proptest::option::weighted(0.1, any::<u8>()), proptest::bool::weighted(0.15)).prop_map(|(toks, missing, main_exit)| RawTree { toks, missing, main_exit })
+    (proptest::collection::vec(tok, 3..40), proptest::option::weighted(0.1, any::<u8>()), proptest::bool::weighted(0.15), proptest::bool::weighted(0.2)).prop_map(|(toks, missing, main_exit, main_symlink)| RawTree { toks, missing, main_exit, main_symlink })
 }
 
 pub const P_ABS: u8 = 0;
@@ -87,6 +89,7 @@ pub struct Tree {
     pub shape: Shape,
     pub caller_dirs: Vec<PathBuf>,
     pub missing_name: Option<String>,
+    pub main_symlink: bool,
 }
 
 fn rel_between(from_dir: &Path, to: &Path) -> String {
@@ -400,19 +403,28 @@ pub fn build_tree(r: &RawTree, root_abs: &Path) -> Tree {
     }
     shape.files = files.len();
     let caller_dirs = vec![root_abs.join("cd0"), root_abs.join("cd1")];
-    Tree { files, flat: flat2, messages, shape, caller_dirs, missing_name }
+    Tree { files, flat: flat2, messages, shape, caller_dirs, missing_name, main_symlink: r.main_symlink }
 }
 
 pub fn write_tree(t: &Tree, root: &Path) -> std::io::Result<()> {
     for d in ["main", "cd0", "cd1"] {
         std::fs::create_dir_all(root.join(d))?;
     }
-    for f in &t.files {
+    for (i, f) in t.files.iter().enumerate() {
         let p = root.join(&f.rel);
         if let Some(parent) = p.parent() {
             std::fs::create_dir_all(parent)?;
         }
-        std::fs::write(p, &f.text)?;
+        if i == 0 && t.main_symlink {
+            // the text lives in store/, main/main.asm is a symbolic link to it: "the directory of the
+            // including file" is where the name that was given lives
+            std::fs::create_dir_all(root.join("store"))?;
+            std::fs::write(root.join("store/real_main.asm"), &f.text)?;
+            let _ = std::fs::remove_file(&p);
+            std::os::unix::fs::symlink(root.join("store/real_main.asm"), &p)?;
+        } else {
+            std::fs::write(p, &f.text)?;
+        }
     }
     Ok(())
 }
@@ -536,7 +548,7 @@ pub fn test(r: &RawTree, ev: &mut Ev, opts: &ModelOpts, tag: &str) -> Result<(),
     for p in &s.placements {
         ev.class(&format!("placement:{}", ["as-written-absolute", "as-written-relative-to-cwd", "includer-directory", "includer-subdirectory", "caller-supplied-directory", "includepath-absolute", "includepath-relative"][*p as usize]));
     }
-    for (c, on) in [("depth>=2", s.max_depth >= 2), ("includepath-relative-to-nested-file", s.includepath_relative_in_nested), ("includepath-in-earlier-sibling", s.includepath_in_sibling), ("includepath-inherited-from-enclosing-file", s.includepath_inherited), ("exit-present", s.exit_present), ("exit-in-the-middle-of-a-file", s.exit_mid_file), ("symbols-cross-boundaries-both-directions", s.crossing_both_directions)] {
+    for (c, on) in [("depth>=2", s.max_depth >= 2), ("includepath-relative-to-nested-file", s.includepath_relative_in_nested), ("includepath-in-earlier-sibling", s.includepath_in_sibling), ("includepath-inherited-from-enclosing-file", s.includepath_inherited), ("exit-present", s.exit_present), ("exit-in-the-middle-of-a-file", s.exit_mid_file), ("main-file-given-through-a-symbolic-link", t.main_symlink), ("symbols-cross-boundaries-both-directions", s.crossing_both_directions)] {
         if on {
             ev.class(c);
         }
